@@ -82,7 +82,10 @@ class DecimalProxy(AnyAtomicType):
             value = collapse_white_spaces(str(value))
             if cls.pattern.match(value) is None:
                 raise cls._invalid_value(value)
-        elif isinstance(value, (float, Float, Decimal)):
+        elif isinstance(value, Decimal):
+            if not value.is_finite():
+                raise cls._invalid_value(value)
+        elif isinstance(value, (float, Float)):
             if math.isinf(value) or math.isnan(value):
                 raise cls._invalid_value(value)
         try:
